@@ -140,4 +140,63 @@ theorem tie_DriverQuery (W : Net.World ω) (E : Engine σ) (buf : Bytes) (fuel :
   rcases w with ⟨⟨⟨le, ps, rt, ir, iw, dss, pe, wire, bw, ec⟩, e, ww⟩, ans, rx⟩
   cases hi : E.initFinished e <;> cases le <;> cases dss <;> cases hp : E.pending e <;>
     simp [Gen.Tls_DriverQuery, driverQuery, driverReceived, Gen.M.bind, Gen.M.pure, codeOf, hi, hp]
+
+/-! ### the entry points, relative to the retry loops
+
+`Gen.Tls_Read` / `Gen.Tls_Write` (the `≤ handshakeStepsMax` retry loops around `SSL_read` / `SSL_write_ex`) are generated,
+but their ties to `tlsRead` / `tlsWrite` are not proved here; the entry points are tied under the hypothesis that the
+loop they call corresponds to the model's (`ReadCorr` / `WriteCorr`). -/
+
+/-- the configuration the generated code corresponds to: the current source, `assert`s compiled out -/
+def CfgN : Cfg := { Cfg.current with asserts := false }
+
+/-- "`Gen.Tls_Read` corresponds to `tlsRead`" (count for bytes; the final world is the model's final state) -/
+def ReadCorr (W : Net.World ω) (E : Engine σ) (buf : Bytes) (fuel size : Nat) : Prop :=
+  ∀ w : TWSt σ ω, ∃ a r, Gen.Tls_Read (tlsWorld W E buf) fuel size w
+    = (resOfOut (fun bs => (List.length bs : Int)) (tlsRead CfgN W E w.s size).1, ⟨(tlsRead CfgN W E w.s size).2, a, r⟩)
+
+def WriteCorr (W : Net.World ω) (E : Engine σ) (buf : Bytes) (fuel : Nat) : Prop :=
+  ∀ w : TWSt σ ω, ∃ a r, Gen.Tls_Write (tlsWorld W E buf) fuel 0 buf.length w
+    = (resOfOut (fun (n : Nat) => (n : Int)) (tlsWrite CfgN W E w.s buf).1, ⟨(tlsWrite CfgN W E w.s buf).2, a, r⟩)
+
+/-- `Receive(data, size, timeout)`: `nullopt` for no bytes, and (319faf2) a stale WANT_READ is reset once the
+handshake is finished -/
+theorem tie_ReceiveT (W : Net.World ω) (E : Engine σ) (buf : Bytes) (fuel size : Nat) (hR : ReadCorr W E buf fuel size)
+    (t : Int) (w : TWSt σ ω) :
+    ∃ a r, Gen.Tls_ReceiveT (tlsWorld W E buf) fuel size t w
+      = (resOfOut (fun bs => if bs = [] then none else some (List.length bs : Int)) (receiveT CfgN W E w.s size t).1,
+         ⟨(receiveT CfgN W E w.s size t).2, a, r⟩) := by
+  obtain ⟨a, r, h⟩ := hR ⟨setTimeout w.s t, w.ans, w.rx⟩
+  simp only [Gen.Tls_ReceiveT, receiveT, Gen.M.bind, tw_set_remainingTime, h]
+  rcases tlsRead CfgN W E (setTimeout w.s t) size with ⟨o, s'⟩
+  cases o with
+  | exn x => exact ⟨a, r, by simp [resOfOut]⟩
+  | abort m => exact ⟨a, r, by simp [resOfOut]⟩
+  | ok bs =>
+    cases bs with
+    | cons b bs' =>
+      refine ⟨a, r, ?_⟩
+      have hne : ¬ ((bs'.length : Int) + 1 = 0) := by omega
+      simp [resOfOut, Gen.M.pure, hne]
+    | nil =>
+      refine ⟨a, r, ?_⟩
+      cases hl : s'.g.lastError <;> cases hi : E.initFinished s'.e <;>
+        simp [resOfOut, Gen.M.pure, Gen.M.bind, CfgN, Cfg.current, codeOf, hl, hi, setLastError, errOf]
+
+/-- `Send(data, size, timeout)`: (ee81033) a stale WANT_WRITE is reset once the handshake is finished -/
+theorem tie_SendT (W : Net.World ω) (E : Engine σ) (buf : Bytes) (fuel : Nat) (hW : WriteCorr W E buf fuel)
+    (t : Int) (w : TWSt σ ω) :
+    ∃ a r, Gen.Tls_SendT (tlsWorld W E buf) fuel 0 buf.length t w
+      = (resOfOut (fun (n : Nat) => (n : Int)) (sendT CfgN W E w.s buf t).1, ⟨(sendT CfgN W E w.s buf t).2, a, r⟩) := by
+  obtain ⟨a, r, h⟩ := hW ⟨setTimeout w.s t, w.ans, w.rx⟩
+  simp only [Gen.Tls_SendT, sendT, Gen.M.bind, tw_set_remainingTime, h]
+  rcases tlsWrite CfgN W E (setTimeout w.s t) buf with ⟨o, s'⟩
+  cases o with
+  | exn x => exact ⟨a, r, by simp [resOfOut]⟩
+  | abort m => exact ⟨a, r, by simp [resOfOut]⟩
+  | ok n =>
+    refine ⟨a, r, ?_⟩
+    cases hl : s'.g.lastError <;> cases hi : E.initFinished s'.e <;>
+      simp [resOfOut, Gen.M.pure, Gen.M.bind, CfgN, Cfg.current, codeOf, hl, hi, setLastError, errOf]
+
 end SockModel.Props.C18Tie
